@@ -2208,7 +2208,7 @@ Lemma make_node_conv_inv : forall tok pad np nd,
   make_node KConv tok pad np = Ok nd ->
   n_isfloat nd = false /\ n_tok nd = tok /\
   ((n_value nd = None /\ n_og nd = None) \/
-   exists t xo i, tok = TText t /\ fortran_float t = Ok xo /\ conv_int t = Ok i /\ n_og nd = Some (VFlt xo)).
+   exists t xo i, tok = TText t /\ fortran_float t = Ok xo /\ conv_int t = Ok i /\ n_og nd = Some (VInt i)).
 Proof.
   intros tok pad np nd H. unfold make_node in H. destruct tok as [| |t].
   - inversion H; subst; cbn. auto.
@@ -2218,16 +2218,16 @@ Proof.
     split; [reflexivity|]. split; [reflexivity|]. right. exists t, xo, i. auto.
 Qed.
 
-(* either the integer is written digit for digit, or the unchanged short cut was taken: the old token is
-   kept, and that happens exactly when the new integer equals (as Python compares an int with a float)
-   the float the token was first read as *)
-Theorem conv_node_cases : forall tok pad np nd n s,
+(* THE INTEGER THEOREM FOR CONVERTED NODES: the integer is written digit for digit, or it is the integer
+   the token itself was converted to and the token is kept verbatim (an unchanged value keeps its spelling,
+   e.g. '5.0') *)
+Theorem conv_node_exact_full : forall tok pad np nd n s,
   make_node KConv tok pad np = Ok nd ->
   followed_ok (pad_nodes (set_value nd (VInt n))) ->
   format (set_value nd (VInt n)) = Ok s ->
   written_number s = Some (n <? 0, Z.abs n, 0) \/
-  exists t xo, tok = TText t /\ fortran_float t = Ok xo /\ py_eq (VInt n) (VFlt xo) = true /\
-               s = t ++ pad_text (pad_nodes (set_value nd (VInt n))).
+  exists t, tok = TText t /\ conv_int t = Ok n /\
+            s = t ++ pad_text (pad_nodes (set_value nd (VInt n))).
 Proof.
   intros tok pad np nd n s MK FO H.
   destruct (make_node_conv_inv tok pad np nd MK) as (Hf & Htok & Hog).
@@ -2240,37 +2240,29 @@ Proof.
     assert (Hf' : n_isfloat (set_value nd (VInt n)) = false) by exact Hf.
     rewrite Hv, Ho, Hf' in VC.
     destruct Hog as [[_ Hn]|(t & xo & i & -> & FF & CI & Hn)]; rewrite Hn in VC; [discriminate|].
-    injection VC as CL. apply negb_false_iff in CL.
-    exists t, xo. repeat split; try assumption.
+    injection VC as CL. apply negb_false_iff in CL. apply py_eq_int in CL. subst i.
+    exists t. repeat split; try assumption.
     rewrite Htok. reflexivity.
   - unfold format in H. rewrite VC in H. discriminate.
 Qed.
 
-(* under the side condition that the token's float is exactly the token's integer (every integer below
-   2^53), the short cut is only taken for the token's own integer *)
-Theorem conv_node_exact_partial : forall t pad np nd n s xo i,
+(* ... and when the token is spelled as an integer, the kept token reads as that integer too *)
+Theorem conv_node_exact_plain : forall t pad np nd n s,
   make_node KConv (TText t) pad np = Ok nd ->
-  fortran_float t = Ok xo -> conv_int t = Ok i -> py_eq (VInt i) (VFlt xo) = true ->
+  (exists i, py_int_of_string t = Ok i) ->
   followed_ok (pad_nodes (set_value nd (VInt n))) ->
   format (set_value nd (VInt n)) = Ok s ->
-  written_number s = Some (n <? 0, Z.abs n, 0) \/
-  (n = i /\ s = t ++ pad_text (pad_nodes (set_value nd (VInt n)))).
+  exists neg M, written_number s = Some (neg, M, 0) /\ (if neg then - M else M) = n.
 Proof.
-  intros t pad np nd n s xo i MK FF CI SC FO H.
-  destruct (conv_node_cases _ pad np nd n s MK FO H) as [E|(t' & xo' & Et & FF' & PE & Es)]; [now left|right].
-  inversion Et; subst t'. rewrite FF in FF'. inversion FF'; subst xo'.
-  split; [exact (py_eq_int_float n i xo PE SC) | exact Es].
-Qed.
-
-(* ... and without it the integer that was set is lost: token 1000000000000000003, new value 10^18 *)
-Lemma conv_node_exact_refuted :
-  exists t pad n s r,
-    render KConv (TText t) pad false (VInt n) = Ok s /\
-    written_number s = Some r /\ r <> (n <? 0, Z.abs n, 0) /\ s = t ++ " ".
-Proof.
-  exists "1000000000000000003", (Some [PStr " "]), 1000000000000000000, "1000000000000000003 ",
-         (false, 1000000000000000003, 0).
-  split; [vm_compute; reflexivity|]. split; [vm_compute; reflexivity|]. split; [discriminate | reflexivity].
+  intros t pad np nd n s MK [i PI] FO H.
+  destruct (conv_node_exact_full _ pad np nd n s MK FO H) as [E|(t' & Et & CI & Es)].
+  - exists (n <? 0), (Z.abs n). split; [exact E|].
+    destruct (n <? 0) eqn:En; [apply Z.ltb_lt in En | apply Z.ltb_ge in En]; lia.
+  - inversion Et; subst t'. unfold conv_int in CI. rewrite PI in CI. inversion CI; subst i.
+    destruct (py_int_of_string_read t n PI) as (neg & M & R & V & W & N).
+    exists neg, M. split; [|exact V]. subst s.
+    unfold written_number. rewrite first_word_plain; [exact R | exact N | exact W |].
+    destruct (followed_ok_pad_text _ FO) as [E|E]; [left | right]; exact E.
 Qed.
 
 (* the int(round(value)) branch: the nearest integer, not the truncated one, digit for digit *)
